@@ -452,7 +452,7 @@ func generate(c *drv.Ctx) {
 	// (ii) seeded random configurations with random payloads
 	nRand := 150
 	if thorough {
-		nRand = 2500
+		nRand = 5000
 	}
 	allKinds := append(append([]string{"spec", "oauth2"}, uiKinds...), apiKinds...)
 	words := []string{"docs", "ui", "api", "v1", "specs", "swagger.json", "api.json", "x", "a"}
